@@ -161,6 +161,33 @@ def main():
     if hasattr(P, "extra_checks"):
         extra = P.extra_checks(tier, rng, variants, broken, failing) or {}
 
+    # 6a. Spec-vs-world: the Lean Spec the theorems refine is compared with independent implementations of the
+    #     standards (hashlib, OpenSSL, small reference programs, published vectors) on this property's case stream.
+    #     A line where the Spec differs from the standard is a line on which the property is not shown (and, when the
+    #     code agrees with the Spec, fails): it is reported as a failing input.
+    spec_oracle = None
+    if driver_ok and not args.replay:
+        try:
+            import spec_oracles
+            so = spec_oracles.run_for_property(prop, tier, seed)
+            if so is not None:
+                spec_oracle = {"ok": so.get("ok"), "cases": so.get("cases"), "values_compared": so.get("values_compared"),
+                               "seconds": so.get("seconds"), "error": so.get("error"),
+                               "families": {f: {"cases": v.get("cases"), "oracle": v.get("oracle"), "oracles": v.get("oracles"),
+                                                "published_vectors": v.get("published_vectors"),
+                                                "mismatches": len(v.get("mismatches", [])),
+                                                "skipped": v.get("skipped")} for f, v in so.get("families", {}).items()}}
+                if not so.get("error"):
+                    for f, v in so.get("families", {}).items():
+                        for mm in v.get("mismatches", [])[:20]:
+                            line = mm.get("line") if isinstance(mm, dict) else str(mm)
+                            failing.append({"line": line, "kind": "spec-oracle:" + f, "answers": mm,
+                                            "why": "the Lean Spec differs from the independent oracle of the standard on this line"})
+                cx.log(f"[{prop}] {spec_oracles.summary_line(so)}")
+        except Exception as e:  # the oracle tool failing is a machinery problem, not a verdict about the code
+            spec_oracle = {"ok": None, "error": f"spec_oracles did not run: {e}"[:300]}
+            cx.log(f"[{prop}] spec oracles did not run: {e}")
+
     # 6b. a proof obligation / the tie broke but no case of this tier fails: widen the search for a concrete
     #     failing input to the thorough generators (code vs Spec/Impl), before reporting no-failing-input-found
     widened = 0
@@ -248,6 +275,7 @@ def main():
             "model_only_disagreements": len(model_only),
             "extracted_tables": ext["tables"],
             "exhaustive": False,
+            "spec_validated_against_standards": spec_oracle,
             "discharged_hypotheses": cx.hypotheses_of(mods)[1],
             "partial_theorems": cx.hypotheses_of(mods)[2],
             **extra,
